@@ -30,7 +30,12 @@ def build_base(n, prog):
     c = lw.Circuit(2 * n)
     for g, q in prog:
         name, args = g[0], g[1:]
-        if name == "SWAP":
+        if name == "ANC":
+            # a single-qubit rotation realised by a heralded 3-mode block whose (vacuum) ancilla
+            # ends up BETWEEN the two rails of the qubit
+            sub = lw.Circuit(3); sub.bs(0, 2, reflectivity=args[0]); sub.herald(0, 1)
+            c.add(sub, 2 * q)
+        elif name == "SWAP":
             c.add(qubit.SWAP((2 * q, 2 * q + 1), (2 * q + 2, 2 * q + 3)), 0)
         else:
             c.add(getattr(qubit, name)(*args), 2 * q)
@@ -54,6 +59,9 @@ def program_unitary(n, prog):
         elif name == "CCNOT":
             t = args[0] if args else 2
             m = rq.controlled_x(n, tuple(x + q for x in range(3) if x != t), q + t)
+        elif name == "ANC":
+            from .ref_circuit import bs_matrix
+            m = rq.kron(*[bs_matrix(args[0], "Rx") if k == q else rq.I2 for k in range(n)])
         else:
             m = rq.kron(*[gate_matrix_1q(g) if k == q else rq.I2 for k in range(n)])
         U = m @ U
